@@ -1099,6 +1099,10 @@ def _prefix_slices(model, rep, R, u, q, fn):
 
 
 # ----------------------------------------------------------------------------- driver
+from . import c12 as _c12  # noqa: E402
+from .shared import Renamed as _Renamed  # noqa: E402
+
+
 def run(model, rep):
     rep.explanation = __doc__
     table = HandlerTable(model)
@@ -1115,3 +1119,5 @@ def run(model, rep):
     rule_f(model, rep, pairs, lib)
     rule_g(model, rep, table)
     rule_h(model, rep, table, pairs)
+    # the codecs a hash string is rendered / parsed with are part of the round trip
+    _c12.rule_alphabets(model, _Renamed(rep, {"C12.e": "C07.j-codec-alphabets", "C12.f": "C07.j-codec-helpers"}, "C07.x-"))
